@@ -261,3 +261,33 @@ func KnownF80TypedNil() int {
 	r := typedNil(&S{})
 	return r.v
 }
+
+// a contracted METHOD called with the literal nil through a selector: the call is trackable, its result site is located at
+// the method's identifier (not at the receiver): producer, duplicated triggers and the tracked call must agree on it
+func (s *S) pick(p *S) *S {
+	if p == nil {
+		return nil
+	}
+	return p
+}
+
+// BadMethodLit dereferences s.pick(nil), which is nil.
+func BadMethodLit() int {
+	s := &S{}
+	r := s.pick(nil)
+	return r.v
+}
+
+// BadMethodChain: the second call of the chain gets the nil.
+func BadMethodChain() int {
+	s := &S{}
+	r := s.pick(s).pick(nil)
+	return r.v
+}
+
+// OkMethodChain: both calls of the chain get a non-nil argument.
+func OkMethodChain() int {
+	s := &S{}
+	r := s.pick(s).pick(s)
+	return r.v
+}
